@@ -235,6 +235,7 @@ SAN = ["-fsanitize=address,undefined", "-fno-sanitize-recover=all", "-fno-omit-f
 HARNESSES = {
     "arith": dict(opt="-O1"),
     "literal": dict(opt="-O1"),
+    "stl": dict(opt="-O1", sanitize=True, compiler="clang++-14"),
 }
 
 
@@ -245,6 +246,7 @@ def harness_build(name, extra_flags=(), sanitize=None, opt=None, compiler="g++",
     opt = spec.get("opt", "-O1") if opt is None else opt
     extra_flags = list(extra_flags) + list(spec.get("flags", ()))
     src_name = spec.get("src", name)
+    compiler = spec.get("compiler", compiler)
     return _harness_build(name, src_name, extra_flags, sanitize, opt, compiler, tsan, hash_dirs, libs)
 
 
